@@ -91,6 +91,53 @@ def failed_first_use(res, sig, ts, refvals):
         pass
 
 
+def _scribble(v):
+    """what a receiver may do with a decoded value that is its own: add to
+    every dictionary and list in it"""
+    if isinstance(v, dict):
+        for x in list(v.values()):
+            _scribble(x)
+        v['\0scribbled'] = {'by': 'receiver'}
+    elif isinstance(v, list):
+        for x in v:
+            _scribble(x)
+        v.append('scribbled')
+
+
+def ownership_case(res, sig, ts, refvals):
+    """decoded values belong to the receiver and encoded ones stay the
+    sender's: decode, let the receiver add to every container of the
+    result, decode the same bytes again - the second result is as the
+    first was; and encoding leaves the sender's values as they were"""
+    from txdbus import marshal as M
+    import copy
+    res.count('transitions', 3)
+    want = R.as_plain(ts, refvals)
+    data = R.encode(ts, refvals, 0, True)
+    rep = {'sig': sig, 'values': repr(refvals), 'style': 'ownership',
+           'little': True, 'offset': 0}
+    try:
+        _n, out1 = M.unmarshal(sig, data, 0, True)
+        _scribble(out1)
+        _n, out2 = M.unmarshal(sig, data, 0, True)
+        if not R.same(out2, want):
+            res.violation('%s/shared-result/%s' % (PROP, sig),
+                          'after the receiver of a decoded %r added to the '
+                          'containers it was given, decoding the same bytes '
+                          'again gave %r instead of %r'
+                          % (sig, out2, want), rep, size=len(sig))
+            return
+        tx = [space.to_tx(t, v, 'list') for t, v in zip(ts, refvals)]
+        before = copy.deepcopy(tx)
+        M.marshal(sig, tx, 0, True)
+        if not R.same(tx, before) or repr(tx) != repr(before):
+            res.violation('%s/sender-values-changed/%s' % (PROP, sig),
+                          'marshal(%r, ...) changed the values it was given: '
+                          '%r -> %r' % (sig, before, tx), rep, size=len(sig))
+    except Exception:
+        pass        # judged by one_case
+
+
 def _task(task):
     res = core.Result()
     nseq = 0
@@ -108,6 +155,8 @@ def _task(task):
             if first:
                 first = False
                 failed_first_use(res, sig, ts, refvals)
+            if nt:
+                ownership_case(res, sig, ts, refvals)
             for style in styles:
                 for le in (True, False):
                     for off in range(8):
@@ -217,7 +266,10 @@ def run(ctx):
         'occurs; x presentation styles (list / tuple / dbusOrder object + '
         'pair lists + bytearray / wrapper classes) x both byte orders x '
         'offsets 0..7 behind 0xAA filler; plus deep/long families (32-deep '
-        'arrays and structs, 255-byte signature) and descriptor cases; plus '
+        'arrays and structs, 255-byte signature) and descriptor cases; every '
+        'non-trivial case once more for ownership (the receiver adds to '
+        'every container it was given, the same bytes decode as before; '
+        'encoding leaves the sender\'s values unchanged); plus '
         'arrays (of bytes, 16/64-bit integers, strings, structs, dict '
         'entries, arrays, variants) and strings with every element count / '
         'length of the ladder 127..257, 1023..1025, 4095..4097, 8191..8193 '
@@ -248,6 +300,9 @@ def replay(data):
     nan = float('nan')
     inf = float('inf')
     refvals = eval(data['values'], {'Var': Var, 'nan': nan, 'inf': inf})
+    if data['style'] == 'ownership':
+        ownership_case(res, data['sig'], ts, refvals)
+        return [(s, v['what']) for s, v in res.violations.items()]
     one_case(res, data['sig'], ts, refvals, data['style'], data['little'],
              data['offset'], fds='h' in data['sig'])
     return [(s, v['what']) for s, v in res.violations.items()]
